@@ -102,7 +102,13 @@ func build(bin string) string {
 	if out, err := run(simDir, goEnv(), goBin, "build", "-o", gen, "./gen"); err != nil {
 		fatal2("building dsimgen failed: %v\n%s", err, out)
 	}
-	if out, err := run(simDir, goEnv(), gen, "-repo", repoDir, "-patch", filepath.Join(simDir, "patch"), "-out", ov); err != nil {
+	genArgs := []string{"-repo", repoDir, "-patch", filepath.Join(simDir, "patch"), "-out", ov}
+	if c := os.Getenv("DSIM_CANARY"); c != "" {
+		// sensitivity self-test only: a deliberate breaking change substituted through the overlay
+		genArgs = append(genArgs, "-canary", c)
+		fmt.Fprintf(os.Stderr, "dsim: building with canary %s (self-test; /repo untouched)\n", c)
+	}
+	if out, err := run(simDir, goEnv(), gen, genArgs...); err != nil {
 		fatal2("overlay generation failed (an anchor no longer matches the tree?): %v\n%s", err, out)
 	}
 	pkg := map[string]string{"dsim-store": "./store", "dsim-refs": "./refs", "dsim-sql": "./sql"}[bin]
@@ -167,22 +173,28 @@ func cleanStale(base string) {
 }
 
 type workerOut struct {
-	results []*result
-	err     error
-	stderr  string
+	results   []*result
+	err       error
+	stderr    string
+	crashed     bool
+	crashedAt   int64
+	crashedCase int
 }
 
 // runWorker executes one worker process and parses its output file.
 func runWorker(binPath, scratch string, env map[string]string, timeout time.Duration, gomaxprocs int) workerOut {
 	outFile := filepath.Join(scratch, fmt.Sprintf("w%d.%d.jsonl", time.Now().UnixNano(), os.Getpid()))
 	defer os.Remove(outFile)
-	cmd := exec.Command(binPath, "-test.run", "^TestSim$", "-test.timeout", "0")
+	// RLIMIT_AS bounds a runaway allocation (the sandbox has no memory limit of its own)
+	cmd := exec.Command("/bin/sh", "-c", "ulimit -v 4000000; exec \"$0\" \"$@\"", binPath, "-test.run", "^TestSim$", "-test.timeout", "0")
 	cmd.Dir = scratch
 	e := os.Environ()
 	for k, v := range env {
 		e = append(e, k+"="+v)
 	}
-	e = append(e, "DSIM_OUT="+outFile, "VERIF_SCRATCH="+filepath.Dir(scratch))
+	sentinel := outFile + ".sentinel"
+	defer os.Remove(sentinel)
+	e = append(e, "DSIM_OUT="+outFile, "VERIF_SCRATCH="+filepath.Dir(scratch), "DSIM_SENTINEL="+sentinel)
 	if gomaxprocs > 0 {
 		e = append(e, "GOMAXPROCS="+strconv.Itoa(gomaxprocs))
 	}
@@ -205,6 +217,12 @@ func runWorker(binPath, scratch string, env map[string]string, timeout time.Dura
 		cmd.Process.Kill()
 		<-done
 		werr = fmt.Errorf("watchdog: worker exceeded %v", timeout)
+		if sb, err := os.ReadFile(sentinel); err == nil {
+			os.MkdirAll(filepath.Join(verifDir, "replays"), 0o755)
+			pf := filepath.Join(verifDir, "replays", fmt.Sprintf("hang-%d.json", time.Now().UnixNano()))
+			os.WriteFile(pf, sb, 0o644)
+			werr = fmt.Errorf("%v (case in flight saved to %s)", werr, pf)
+		}
 	}
 	wo := workerOut{stderr: lastLines(stderr.String(), 80)}
 	f, err := os.Open(outFile)
@@ -224,7 +242,62 @@ func runWorker(binPath, scratch string, env map[string]string, timeout time.Dura
 	if werr != nil && wo.err == nil {
 		wo.err = werr
 	}
+	// the worker died while a crash sentinel was armed: the code under test crashed the process
+	if werr != nil && !strings.HasPrefix(werr.Error(), "watchdog") {
+		if sb, err := os.ReadFile(sentinel); err == nil {
+			var s struct {
+				RunIndex uint64    `json:"run_index"`
+				Seed     uint64    `json:"seed"`
+				Class    string    `json:"class"`
+				Key      string    `json:"key"`
+				Detail   string    `json:"detail"`
+				Scenario *scenario `json:"scenario"`
+				Case     int       `json:"case"`
+			}
+			full := stderr.String()
+			if json.Unmarshal(sb, &s) == nil && s.Scenario != nil && (strings.Contains(full, "panic:") || strings.Contains(full, "fatal error:")) {
+				msg, fn := panicSite(full)
+				if strings.Contains(msg, "out of memory") {
+					s.Class = "oom-" + strings.TrimPrefix(s.Class, "panic-")
+				}
+				v := &violation{Class: s.Class, Key: s.Key + ";panic_in=" + fn, Detail: s.Detail + ": process crashed: " + msg + " in " + fn, Pinned: s.Scenario.Body}
+				wo.results = append(wo.results, &result{Seed: s.Seed, Evaluations: 1, Violations: []*violation{v}, Scenario: s.Scenario, LogHash: "crash:" + fn})
+				wo.err = nil
+				wo.crashedAt = int64(s.RunIndex)
+				wo.crashedCase = s.Case
+				wo.crashed = true
+			}
+		}
+	}
 	return wo
+}
+
+// panicSite extracts the panic message and the first dolt function of the crashing goroutine.
+func panicSite(trace string) (msg, fn string) {
+	lines := strings.Split(trace, "\n")
+	fn = "unknown"
+	for i, l := range lines {
+		if strings.HasPrefix(l, "panic:") || strings.HasPrefix(l, "fatal error:") {
+			if msg == "" {
+				msg = strings.TrimSpace(l)
+				if len(msg) > 160 {
+					msg = msg[:160]
+				}
+			}
+			for _, m := range lines[i+1:] {
+				if strings.HasPrefix(m, "github.com/dolthub/dolt/go/") {
+					f := strings.TrimPrefix(m, "github.com/dolthub/dolt/go/")
+					if j := strings.LastIndex(f, "("); j > 0 {
+						f = f[:j]
+					}
+					fn = f
+					break
+				}
+			}
+			break
+		}
+	}
+	return
 }
 
 type knownFinding struct {
@@ -399,6 +472,26 @@ func check(prop, tier string) int {
 				env := map[string]string{"DSIM_MODE": "run", "DSIM_HARNESS": p.Harness, "DSIM_TIER": tier, "VERIF_SEED": strconv.FormatUint(seed, 10),
 					"DSIM_RANGE": fmt.Sprintf("%d:%d", c.from, c.to), "DSIM_DEADLINE_UNIX": strconv.FormatInt(deadline.Unix(), 10)}
 				wo := runWorker(binPath, scratch, env, bud.Wall+bud.PerChunkGrace, 0)
+				// the code under test crashed the worker process: resume the same run after the
+				// crashing case (bounded), then carry on with the rest of the chunk
+				resumes := 0
+				for wo.crashed && wo.err == nil {
+					acc := wo.results
+					if resumes < 40 {
+						resumes++
+						env["DSIM_RANGE"] = fmt.Sprintf("%d:%d", wo.crashedAt, c.to)
+						env["DSIM_SKIP"] = strconv.Itoa(wo.crashedCase + 1)
+					} else if int(wo.crashedAt)+1 < c.to {
+						resumes = 0
+						env["DSIM_RANGE"] = fmt.Sprintf("%d:%d", wo.crashedAt+1, c.to)
+						delete(env, "DSIM_SKIP")
+					} else {
+						break
+					}
+					more := runWorker(binPath, scratch, env, bud.Wall+bud.PerChunkGrace, 0)
+					more.results = append(acc, more.results...)
+					wo = more
+				}
 				mu.Lock()
 				all = append(all, wo.results...)
 				if wo.err != nil {
@@ -467,6 +560,29 @@ func check(prop, tier string) int {
 
 	exit := 0
 	if len(unknown) > 0 {
+		cnt := map[string]int{}
+		ex := map[string]string{}
+		for _, h := range unknown {
+			k := h.v.Class + " | " + h.v.Key
+			cnt[k]++
+			ex[k] = h.v.Detail
+		}
+		ks := make([]string, 0, len(cnt))
+		for k := range cnt {
+			ks = append(ks, k)
+		}
+		sort.Strings(ks)
+		fmt.Fprintf(os.Stderr, "dsim: %d distinct unlisted violation kinds:\n", len(ks))
+		for i, k := range ks {
+			if i >= 40 {
+				break
+			}
+			d := ex[k]
+			if len(d) > 240 {
+				d = d[:240]
+			}
+			fmt.Fprintf(os.Stderr, "  %4dx %s\n        e.g. %s\n", cnt[k], k, d)
+		}
 		h := unknown[0]
 		fmt.Fprintf(os.Stderr, "dsim: %d unlisted violation(s); first: class=%s key=%s\n  %s\n", len(unknown), h.v.Class, h.v.Key, h.v.Detail)
 		sc := *h.r.Scenario
